@@ -15,6 +15,8 @@ What is proved here:
 * `cast_exact`, `cast_col_exact`, `cast_unmapped_default`, `cast_fields`  — `ConvertBase.cast` for *every* row
   labelling of the source (history independence: `cast_label_independent`);
 * `convert_svs`, `convert_fields`, `converters_spec` — the same for the SV and the fields/no-NaN clauses;
+* `roleOk_of_static`, `convert_meta`, `converters_spec_all` — the metadata clause, and all five clauses of `specAll`
+  together for the 17 generated entry points;
 * `convOne_content`, `convert_content`, `converters_content_and_count` — a converter whose table entry passes
   `staticOk` yields, chart by chart, exactly the source's rows (shift `k` only through the shift parameter), for
   every source with arbitrary labels and any number of maps, through all five loop shapes;
@@ -1343,5 +1345,483 @@ theorem converters_spec : ∀ c ∈ converters, ∀ (src : Src) (k : Int) (out :
          convert_svs tables c src k _ out hst (fun m hm => (hsrc m hm).1.2) h,
          convert_fields tables c src k _ out hst (table_labels_free c hc) table_defaults_no_nan
            (fun m hm => (hsrc m hm).2) h⟩
+
+/-! ## metadata of a whole conversion -/
+
+/-! ### atoms -/
+
+theorem abstractAtom_eval (c : Conv) (src : Src) (m : SrcMap) (x : Atom) (y : RAtom)
+    (h : abstractAtom c x = some y) : evalAtom c src (some m) x = evalRAtom src m y := by
+  cases x with
+  | lit s =>
+    simp only [abstractAtom, Option.some.injEq] at h
+    subst h; rfl
+  | attr o a =>
+    simp only [abstractAtom] at h
+    simp only [evalAtom]
+    split at h
+    · rename_i ho
+      simp only [ho, if_true]
+      split at h
+      · rename_i hl
+        simp only [Option.some.injEq] at h
+        subst h
+        simp [hl, evalRAtom]
+      · rename_i hl
+        simp only [Option.some.injEq] at h
+        subst h
+        simp [hl, evalRAtom]
+    · rename_i ho
+      simp only [ho]
+      split at h
+      · rename_i hl
+        simp only [Option.some.injEq] at h
+        subst h
+        simp [hl, evalRAtom]
+      · cases h
+  | levelName s mm =>
+    simp only [abstractAtom] at h
+    simp only [evalAtom]
+    split at h
+    · rename_i hc
+      simp only [Option.some.injEq] at h
+      subst h
+      simp [hc, evalRAtom]
+    · cases h
+
+/-- an atom that refers to the source *set* (or a literal) does not depend on the current map at all -/
+theorem abstractAtom_eval_setOnly (c : Conv) (src : Src) (cur : Option SrcMap) (m : SrcMap) (x : Atom) (y : RAtom)
+    (h : abstractAtom c x = some y) (hs : setOnly y = true) : evalAtom c src cur x = evalRAtom src m y := by
+  cases x with
+  | lit s =>
+    simp only [abstractAtom, Option.some.injEq] at h
+    subst h; rfl
+  | attr o a =>
+    simp only [abstractAtom] at h
+    simp only [evalAtom]
+    split at h
+    · rename_i ho
+      simp only [ho, if_true]
+      split at h
+      · rename_i hl
+        simp only [Option.some.injEq] at h
+        subst h
+        simp [hl, evalRAtom]
+      · simp only [Option.some.injEq] at h
+        subst h
+        simp [setOnly] at hs
+    · split at h
+      · simp only [Option.some.injEq] at h
+        subst h
+        simp [setOnly] at hs
+      · cases h
+  | levelName s mm =>
+    simp only [abstractAtom] at h
+    split at h
+    · simp only [Option.some.injEq] at h
+      subst h
+      simp [setOnly] at hs
+    · cases h
+
+theorem absAtoms_eval (c : Conv) (src : Src) (m : SrcMap) :
+    ∀ (ps : List Atom) (rs : List RAtom), absAtoms c ps = some rs →
+      evalAtoms c src (some m) ps = evalRAtoms src m rs
+  | [], rs, h => by
+    simp only [absAtoms, Option.some.injEq] at h
+    subst h; rfl
+  | x :: t, rs, h => by
+    simp only [absAtoms] at h
+    split at h
+    · rename_i y ys hy hys
+      simp only [Option.some.injEq] at h
+      subst h
+      simp only [evalAtoms, evalRAtoms, abstractAtom_eval c src m x y hy, absAtoms_eval c src m t ys hys]
+      cases evalRAtom src m y <;> cases evalRAtoms src m ys <;> rfl
+    · cases h
+
+theorem absAtoms_eval_setOnly (c : Conv) (src : Src) (cur : Option SrcMap) (m : SrcMap) :
+    ∀ (ps : List Atom) (rs : List RAtom), absAtoms c ps = some rs → rs.all setOnly = true →
+      evalAtoms c src cur ps = evalRAtoms src m rs
+  | [], rs, h, _ => by
+    simp only [absAtoms, Option.some.injEq] at h
+    subst h; rfl
+  | x :: t, rs, h, hs => by
+    simp only [absAtoms] at h
+    split at h
+    · rename_i y ys hy hys
+      simp only [Option.some.injEq] at h
+      subst h
+      simp only [List.all_cons, Bool.and_eq_true] at hs
+      simp only [evalAtoms, evalRAtoms, abstractAtom_eval_setOnly c src cur m x y hy hs.1,
+        absAtoms_eval_setOnly c src cur m t ys hys hs.2]
+      cases evalRAtom src m y <;> cases evalRAtoms src m ys <;> rfl
+    · cases h
+
+theorem evalRAtoms_append (src : Src) (m : SrcMap) :
+    ∀ (pre want : List RAtom) (w v : String), evalRAtoms src m (pre ++ want) = some w →
+      evalRAtoms src m want = some v → ∃ wp, w = wp ++ v
+  | [], want, w, v, h1, h2 => by
+    simp only [List.nil_append] at h1
+    rw [h1] at h2
+    simp only [Option.some.injEq] at h2
+    exact ⟨"", by simp [h2]⟩
+  | a :: pre, want, w, v, h1, h2 => by
+    simp only [List.cons_append, evalRAtoms] at h1
+    split at h1
+    · rename_i x y hx hy
+      simp only [Option.some.injEq] at h1
+      obtain ⟨wp, hwp⟩ := evalRAtoms_append src m pre want y v hy h2
+      exact ⟨x ++ wp, by rw [← h1, hwp, String.append_assoc]⟩
+    · cases h1
+
+/-! ### the assigned attributes -/
+
+/-- what the attribute list holds for `a`, given the last assignment to it seen so far -/
+def MetaInv (c : Conv) (src : Src) (cur : Option SrcMap) (a : String) (acc : List (String × String)) :
+    Option MetaAssign → Prop
+  | some m0 => ∀ ps, exprAtoms m0.expr = some ps → ∃ w, acc.lookup a = some w ∧ evalAtoms c src cur ps = some w
+  | none => True
+
+theorem evalMeta_atoms (c : Conv) (src : Src) (cur : Option SrcMap) (e : MetaExpr) (v : String) (ps : List Atom)
+    (h : evalMeta c src cur e = some (some v)) (hp : exprAtoms e = some ps) : evalAtoms c src cur ps = some v := by
+  cases e with
+  | fmt qs =>
+    simp only [exprAtoms, Option.some.injEq] at hp
+    subst hp
+    simpa [evalMeta] using h
+  | decoded x =>
+    simp only [exprAtoms, Option.some.injEq] at hp
+    subst hp
+    simp only [evalMeta, Option.some.injEq] at h
+    simp [evalAtoms, h]
+  | encoded qs =>
+    simp only [exprAtoms, Option.some.injEq] at hp
+    subst hp
+    simpa [evalMeta] using h
+  | «opaque» _ => simp [exprAtoms] at hp
+
+theorem metasAt_inv (c : Conv) (src : Src) (cur : Option SrcMap) (lvl a : String) :
+    ∀ (metas : List MetaAssign) (acc me : List (String × String)) (last : Option MetaAssign),
+      metasAt c src cur lvl metas acc = .ok me → MetaInv c src cur a acc last →
+      MetaInv c src cur a me (lastAssign metas lvl a last)
+  | [], acc, me, last, h, hinv => by
+    simp only [metasAt, Except.ok.injEq] at h
+    subst h
+    exact hinv
+  | m :: t, acc, me, last, h, hinv => by
+    simp only [metasAt] at h
+    simp only [lastAssign]
+    by_cases hl : (m.level == lvl) = true
+    · simp only [hl, if_true] at h
+      simp only [hl, Bool.true_and]
+      cases he : evalMeta c src cur m.expr with
+      | none =>
+        simp only [he] at h
+        refine metasAt_inv c src cur lvl a t acc me _ h ?_
+        by_cases ha : (m.attr == a) = true
+        · simp only [ha, if_true]
+          intro ps hps
+          cases hm : m.expr <;> simp [hm, evalMeta, exprAtoms] at he hps
+        · have ha' : (m.attr == a) = false := by simpa using ha
+          simp only [ha']
+          exact hinv
+      | some ov =>
+        cases ov with
+        | none => simp [he] at h
+        | some v =>
+          simp only [he] at h
+          refine metasAt_inv c src cur lvl a t _ me _ h ?_
+          by_cases ha : (m.attr == a) = true
+          · have hae : m.attr = a := by simpa using ha
+            simp only [ha, if_true]
+            intro ps hps
+            refine ⟨v, ?_, evalMeta_atoms c src cur m.expr v ps he hps⟩
+            rw [hae]
+            exact lookup_cons_eq a a v acc (by simp)
+          · have ha' : (m.attr == a) = false := by simpa using ha
+            have ha2 : (a == m.attr) = false := by
+              have : m.attr ≠ a := by simpa using ha'
+              simpa using (fun e : a = m.attr => this e.symm)
+            simp only [ha']
+            cases last with
+            | none => trivial
+            | some m0 =>
+              intro ps hps
+              obtain ⟨w, hw, he'⟩ := hinv ps hps
+              exact ⟨w, by rw [lookup_cons_ne a m.attr v acc ha2]; exact hw, he'⟩
+    · have hl' : (m.level == lvl) = false := by simpa using hl
+      simp only [hl'] at h
+      simp only [hl', Bool.false_and]
+      exact metasAt_inv c src cur lvl a t acc me last h hinv
+
+theorem roleStaticOk_unpack (c : Conv) (r : Role) (lvl a : String) (want : List RAtom)
+    (htr : tgtRole c.tgtGame r = some (lvl, a)) (hrs : roleSpec c.srcGame r = some want)
+    (hst : roleStaticOk c r = true) :
+    ∃ m0 ps rs, lastAssign c.metas lvl a none = some m0 ∧ exprAtoms m0.expr = some ps ∧ absAtoms c ps = some rs ∧
+      (if r = .diff then want.isSuffixOf rs else rs == want) = true ∧
+      (lvl == "map" || (lvl == "set" && hasSet c.shape)) = true ∧
+      (!(lvl == "set" && c.shape == Shape.mergedSet) || rs.all setOnly) = true := by
+  unfold roleStaticOk at hst
+  simp only [htr, hrs] at hst
+  split at hst
+  · rename_i m0 hm0
+    split at hst
+    · rename_i ps hps
+      split at hst
+      · rename_i rs hrs'
+        simp only [Bool.and_eq_true] at hst
+        exact ⟨m0, ps, rs, hm0, hps, hrs', hst.1.1, hst.1.2, hst.2⟩
+      · cases hst
+    · cases hst
+  · cases hst
+
+/-- **One role of one chart** (model ⊨ `roleOk`): given the static check of the table entry, the attributes the
+pass assigned to the map (`t.attrs`) and — where the target keeps the role on the set — the attributes assigned to
+the set, evaluated at the current map or, in the merged shape, after the loop. -/
+theorem roleOk_of_static (c : Conv) (r : Role) (src : Src) (m : SrcMap) (g : TGroup) (t : TChart)
+    (curS : Option SrcMap) (hst : roleStaticOk c r = true)
+    (hmap : metasAt c src (some m) "map" c.metas [] = .ok t.attrs)
+    (hset : hasSet c.shape = true → metasAt c src curS "set" c.metas [] = .ok g.setMeta)
+    (hcur : (c.shape == Shape.mergedSet) = false → curS = some m) :
+    roleOk c.srcGame c.tgtGame r src m g t = true := by
+  unfold roleOk srcRole
+  cases htr : tgtRole c.tgtGame r with
+  | none => rfl
+  | some la =>
+    obtain ⟨lvl, a⟩ := la
+    cases hrs : roleSpec c.srcGame r with
+    | none => rfl
+    | some want =>
+      simp only [Option.bind_some]
+      cases hv : evalRAtoms src m want with
+      | none => rfl
+      | some v =>
+        obtain ⟨m0, ps, rs, hm0, hps, hrs', h1, h2, h3⟩ := roleStaticOk_unpack c r lvl a want htr hrs hst
+        -- the value stored under `a` and what it evaluates to
+        have key : ∃ w, (if lvl == "set" then g.setMeta else t.attrs).lookup a = some w ∧
+            evalRAtoms src m rs = some w := by
+          by_cases hl : (lvl == "set") = true
+          · have hls : lvl = "set" := by simpa using hl
+            subst hls
+            have hhs : hasSet c.shape = true := by simpa using h2
+            have inv := metasAt_inv c src curS "set" a c.metas [] g.setMeta none (hset hhs) trivial
+            rw [hm0] at inv
+            obtain ⟨w, hw, he⟩ := inv ps hps
+            refine ⟨w, by simpa using hw, ?_⟩
+            by_cases hmg : (c.shape == Shape.mergedSet) = true
+            · have hso : rs.all setOnly = true := by simpa [hmg] using h3
+              rw [← absAtoms_eval_setOnly c src curS m ps rs hrs' hso]; exact he
+            · have hmg' : (c.shape == Shape.mergedSet) = false := by simpa using hmg
+              rw [hcur hmg'] at he
+              rw [← absAtoms_eval c src m ps rs hrs']; exact he
+          · have hl' : (lvl == "set") = false := by simpa using hl
+            have hlm : lvl = "map" := by simpa [hl'] using h2
+            subst hlm
+            have inv := metasAt_inv c src (some m) "map" a c.metas [] t.attrs none hmap trivial
+            rw [hm0] at inv
+            obtain ⟨w, hw, he⟩ := inv ps hps
+            refine ⟨w, by simpa [hl'] using hw, ?_⟩
+            rw [← absAtoms_eval c src m ps rs hrs']; exact he
+        obtain ⟨w, hw, hew⟩ := key
+        simp only [hw]
+        by_cases hd : r = Role.diff
+        · simp only [hd, if_true] at h1 ⊢
+          obtain ⟨pre, rfl⟩ := List.isSuffixOf_iff_suffix.mp h1
+          obtain ⟨wp, rfl⟩ := evalRAtoms_append src m pre want w v hew hv
+          rw [List.isSuffixOf_iff_suffix, String.toList_append]
+          exact List.suffix_append _ _
+        · simp only [hd, if_false] at h1 ⊢
+          have : rs = want := by simpa using h1
+          subst this
+          rw [hv] at hew
+          simp only [Option.some.injEq] at hew
+          simp [hew]
+
+/-! ### every (source map, group, chart) triple of a result -/
+
+/-- the map the set's attributes are evaluated at: the current one, or — merged shape — the last one (after the loop) -/
+def curSet (c : Conv) (src : Src) (m : SrcMap) : Option SrcMap :=
+  if c.shape == Shape.mergedSet then src.maps.getLast? else some m
+
+theorem mapE_zip_forall {α β γ} (f : α → Except Err β) (P : α → β → Prop) (G : β → γ) :
+    ∀ (l : List α) (r : List β), mapE f l = .ok r → (∀ a ∈ l, ∀ b, f a = .ok b → P a b) →
+      ∀ p ∈ l.zip (r.map fun t => (G t, t)), P p.1 p.2.2 ∧ p.2.1 = G p.2.2
+  | [], r, _, _ => by simp
+  | a :: t, r, h, hq => by
+    simp only [mapE] at h
+    split at h
+    · cases h
+    · rename_i b hb
+      split at h
+      · cases h
+      · rename_i r' hr
+        simp only [Except.ok.injEq] at h
+        subst h
+        intro p hp
+        simp only [List.map_cons, List.zip_cons_cons, List.mem_cons] at hp
+        rcases hp with rfl | hp
+        · exact ⟨hq a (by simp) b hb, rfl⟩
+        · exact mapE_zip_forall f P G t r' hr (fun a' ha' => hq a' (by simp [ha'])) p hp
+
+theorem convSet_inv2 (T : Tables) (c : Conv) (src : Src) (k : Int) (m : SrcMap) (g : TGroup)
+    (h : convSet T c src k m = .ok g) :
+    ∃ t, g.charts = [t] ∧ convOne T c src m k = .ok t ∧ setMetaOf c src (some m) = .ok g.setMeta := by
+  unfold convSet at h
+  split at h
+  · cases h
+  · rename_i t ht
+    split at h
+    · cases h
+    · rename_i sm hsm
+      simp only [Except.ok.injEq] at h
+      subst h
+      exact ⟨t, rfl, ht, hsm⟩
+
+theorem mapE_convSet_forall (T : Tables) (c : Conv) (src : Src) (k : Int) :
+    ∀ (ms : List SrcMap) (gs : List TGroup), mapE (convSet T c src k) ms = .ok gs →
+      ∀ p ∈ ms.zip (gs.flatMap fun g => g.charts.map fun t => (g, t)),
+        convOne T c src p.1 k = .ok p.2.2 ∧ setMetaOf c src (some p.1) = .ok p.2.1.setMeta
+  | [], gs, _ => by simp
+  | m :: rest, gs, h => by
+    simp only [mapE] at h
+    split at h
+    · cases h
+    · rename_i g hg
+      split at h
+      · cases h
+      · rename_i r hr
+        simp only [Except.ok.injEq] at h
+        subst h
+        obtain ⟨t, hc, ht, hs⟩ := convSet_inv2 T c src k m g hg
+        intro p hp
+        simp only [List.flatMap_cons, hc, List.map_cons, List.map_nil, List.singleton_append, List.zip_cons_cons,
+          List.mem_cons] at hp
+        rcases hp with rfl | hp
+        · exact ⟨ht, hs⟩
+        · exact mapE_convSet_forall T c src k rest r hr p hp
+
+/-- what every (source map, group, chart) triple of a successful conversion satisfies -/
+theorem convert_pairs_inv (T : Tables) (c : Conv) (src : Src) (k : Int) (out : Out)
+    (hgs : goodShape c.shape = true) (h : convert T c src k = .ok out) :
+    ∀ p ∈ src.maps.zip out.pairs, convOne T c src p.1 k = .ok p.2.2 ∧
+      (hasSet c.shape = true → setMetaOf c src (curSet c src p.1) = .ok p.2.1.setMeta) := by
+  unfold convert at h
+  split at h
+  · -- single
+    rename_i hsh
+    split at h
+    · rename_i m hm
+      split at h
+      · cases h
+      · rename_i t ht
+        simp only [Except.ok.injEq] at h
+        subst h
+        intro p hp
+        simp only [hm, Out.pairs, List.flatMap_cons, List.flatMap_nil, List.map_cons, List.map_nil, List.append_nil,
+          List.zip_cons_cons, List.zip_nil_right, List.mem_singleton] at hp
+        subst hp
+        exact ⟨ht, by simp [hsh, hasSet]⟩
+    · cases h
+  · -- singleSet
+    rename_i hsh
+    split at h
+    · rename_i m hm
+      split at h
+      · cases h
+      · rename_i g hg
+        simp only [Except.ok.injEq] at h
+        subst h
+        obtain ⟨t, hc, ht, hs⟩ := convSet_inv2 T c src k m g hg
+        intro p hp
+        simp only [hm, Out.pairs, List.flatMap_cons, List.flatMap_nil, hc, List.map_cons, List.map_nil, List.append_nil,
+          List.zip_cons_cons, List.zip_nil_right, List.mem_singleton] at hp
+        subst hp
+        exact ⟨ht, fun _ => by simpa [curSet, hsh] using hs⟩
+    · cases h
+  · -- listOfMaps
+    rename_i hsh
+    split at h
+    · cases h
+    · rename_i ts hts
+      simp only [Except.ok.injEq] at h
+      subst h
+      rw [pairs_singletons]
+      intro p hp
+      exact ⟨(mapE_zip_forall _ (fun m t => convOne T c src m k = .ok t) _ _ ts hts (fun _ _ _ hb => hb) p hp).1,
+             by simp [hsh, hasSet]⟩
+  · -- listOfSets
+    rename_i hsh
+    split at h
+    · cases h
+    · rename_i gs hgs
+      simp only [Except.ok.injEq] at h
+      subst h
+      intro p hp
+      obtain ⟨h1, h2⟩ := mapE_convSet_forall T c src k _ gs hgs p hp
+      exact ⟨h1, fun _ => by simpa [curSet, hsh] using h2⟩
+  · -- mergedSet
+    rename_i hsh
+    split at h
+    · cases h
+    · rename_i ts hts
+      split at h
+      · cases h
+      · rename_i sm hsm
+        simp only [Except.ok.injEq] at h
+        subst h
+        rw [pairs_merged]
+        intro p hp
+        obtain ⟨h1, h2⟩ := mapE_zip_forall _ (fun m t => convOne T c src m k = .ok t)
+          (fun _ => (⟨sm, ts⟩ : TGroup)) _ ts hts (fun _ _ _ hb => hb) p hp
+        refine ⟨h1, fun _ => ?_⟩
+        rw [h2]
+        simpa [curSet, hsh] using hsm
+  · -- mergedSetInLoop
+    rename_i hsh
+    simp [goodShape, hsh] at hgs
+  · cases h
+  · cases h
+
+/-- **Metadata of every converter** (model ⊨ `specAll.metas`): for a table entry that passes `staticOk` and
+`metaStaticOk`, every source and every shift argument: in a successful conversion title / artist / creator of chart
+`i` (or of the set it sits in) equal those of source map `i` (of the source set), and its difficulty name ends with
+the source's — each role where both games have it.  The codecs are parameters (identity on the abstract text). -/
+theorem convert_meta (T : Tables) (c : Conv) (src : Src) (k k' : Int) (out : Out)
+    (hst : staticOk T c = true) (hms : metaStaticOk c = true)
+    (h : convert T c src k = .ok out) :
+    (specAll T c.srcGame c.tgtGame c.tgtMapClass src k' out).metas = true := by
+  show (src.maps.zip out.pairs).all (fun p => metaOk c.srcGame c.tgtGame src p.1 p.2.1 p.2.2) = true
+  have hshape : goodShape c.shape = true := by
+    simp only [staticOk, Bool.and_eq_true] at hst
+    exact hst.1.1.1.1.1.2
+  rw [List.all_eq_true]
+  intro p hp
+  obtain ⟨hone, hset⟩ := convert_pairs_inv T c src k out hshape h p hp
+  obtain ⟨fh, fl, fb, fs, me, a, b, d, _, _, _, _, hme, ht⟩ := convOne_inv T c src p.1 k p.2.2 hone
+  have hmap : metasAt c src (some p.1) "map" c.metas [] = .ok p.2.2.attrs := by rw [ht]; exact hme
+  have hcur : (c.shape == Shape.mergedSet) = false → curSet c src p.1 = some p.1 := by
+    intro hm; simp [curSet, hm]
+  simp only [metaStaticOk, Bool.and_eq_true] at hms
+  obtain ⟨⟨⟨r1, r2⟩, r3⟩, r4⟩ := hms
+  simp only [metaOk, Bool.and_eq_true]
+  exact ⟨⟨⟨roleOk_of_static c .title src p.1 p.2.1 p.2.2 _ r1 hmap hset hcur,
+           roleOk_of_static c .artist src p.1 p.2.1 p.2.2 _ r2 hmap hset hcur⟩,
+          roleOk_of_static c .creator src p.1 p.2.1 p.2.2 _ r3 hmap hset hcur⟩,
+         roleOk_of_static c .diff src p.1 p.2.1 p.2.2 _ r4 hmap hset hcur⟩
+
+/-- **The shipped converters satisfy the specification** (all five clauses of `specAll`): for each of the 17
+generated entry points, every source satisfying `srcOk` (well-formed lists, key columns, no missing value; any row
+labels, any number of maps) and every shift argument, a successful conversion yields one chart per source map, with
+exactly the source's hits / holds / tempo points (column shifted by the shift argument only), its SVs when both
+games have them, exactly the target's declared fields without NaN, and title / artist / creator / difficulty name
+from the source.  (`source untouched` is runtime behaviour, checked on every case; the codecs are parameters.) -/
+theorem converters_spec_all : ∀ c ∈ converters, ∀ (src : Src) (k : Int) (out : Out),
+    srcOk tables c src = true → convert tables c src k = .ok out →
+    (specAll tables c.srcGame c.tgtGame c.tgtMapClass src (effShift c k) out).all = true := by
+  intro c hc src k out hsrc h
+  obtain ⟨h1, h2, h3, h4⟩ := converters_spec c hc src k out hsrc h
+  have h5 := convert_meta tables c src k (effShift c k) out (table_static_ok c hc) (table_meta_provenance c hc) h
+  simp only [Verdict.all, Bool.and_eq_true]
+  exact ⟨⟨⟨⟨h1, h2⟩, h3⟩, h4⟩, h5⟩
 
 end Reamber.Convert
